@@ -324,8 +324,10 @@ Definition cov_bboxes (cs : list bbox) (b : bbox) : Z :=
   else if existsb (fun c => bbox_intersects c b) cs then 1 else 0.
 
 (* a coverage given by the answers the real SeedTask.intersects gave (shapely / PROJ are external) *)
+(* a rectangle the real walker never asked about answers NONE: if the model asks where the implementation did not
+   (because it took the tile without a test) the traces differ *)
 Definition cov_table (tab : list (bbox * Z)) (b : bbox) : Z :=
-  match find (fun p => bbox_eqb (fst p) b) tab with Some p => snd p | None => 7 end.
+  match find (fun p => bbox_eqb (fst p) b) tab with Some p => snd p | None => 0 end.
 
 (* ------------------------------------------------------------------ comparison helpers *)
 
